@@ -1,4 +1,5 @@
-(* C13 driver: scenario = one operation; see checks/C13.py for the token grammar *)
+(* C13 driver: scenario = one operation, or one of the life-cycle scenarios of C13_Life.v (:repeat :pad :seq :split :fromtill
+   :masked :binary); see checks/C13.py for the token grammar *)
 let b c = bytes_tok (next c)
 let op_of c =
   match next c with
@@ -39,11 +40,38 @@ let val_of = function
   | ":l" :: _ :: r -> VL (List.map bytes_tok r)
   | [t] -> if t <> "" && t.[0] = '$' then VB (bytes_tok t) else VZ (z_tok t)
   | _ -> raise (Bad "obs value")
-let run_line ts = let c = { rest = ts } in let o = op_of c in
-  if not (valid o) then raise (Bad "scenario outside the property's domain (valid = false)") else
-  let r = run o in String.concat " " (pval r.o_val @ [pbool r.o_ref; pbool r.o_paired])
-let spec_line ts os = let c = { rest = ts } in let o = op_of c in
+let nt c = nat_tok (next c)
+let sop_of c =
+  match next c with
+  | ":set" -> let i = nt c in QSet (i, b c)
+  | ":asg" -> let i = nt c in QAsg (i, nt c)
+  | ":app" -> let i = nt c in QApp (i, nt c)
+  | ":appc" -> let i = nt c in QAppC (i, b c)
+  | ":low" -> let i = nt c in QLow (i, nt c)
+  | ":sub" -> let i = nt c in let j = nt c in let p = n_tok (next c) in QSub (i, j, p, n_tok (next c))
+  | ":rc" -> let i = nt c in let c1 = n_tok (next c) in QRc (i, c1, n_tok (next c))
+  | ":rs" -> let i = nt c in let x = b c in QRs (i, x, b c)
+  | ":prt" -> let i = nt c in QPrt (i, nt c)
+  | ":pad" -> let i = nt c in let j = nt c in QPad (i, j, n_tok (next c))
+  | ":fmt" -> let i = nt c in let x = b c in QFmt (i, x, b c)
+  | ":rep" -> let i = nt c in let x = b c in QRep (i, x, nt c)
+  | ":plus" -> let i = nt c in let j = nt c in QPlus (i, j, nt c)
+  | t -> raise (Bad ("seq op " ^ t))
+let scn_of c =
+  match peek c with
+  | Some ":repeat" -> ignore (next c); let x = b c in SRepeat (x, nt c)
+  | Some ":pad" -> ignore (next c); let x = b c in let y = b c in SPad (x, y, n_tok (next c))
+  | Some ":seq" -> ignore (next c); SSeq (counted c sop_of)
+  | Some ":split" -> ignore (next c); let x = b c in SSplit (x, n_tok (next c))
+  | Some ":fromtill" -> ignore (next c); let x = b c in let c1 = n_tok (next c) in SFromTill (x, c1, n_tok (next c))
+  | Some ":masked" -> ignore (next c); let v = n_tok (next c) in let m = n_tok (next c) in SMasked (v, m, n_tok (next c))
+  | Some ":binary" -> ignore (next c); SBinary (b c)
+  | _ -> SOp (op_of c)
+let run_line ts = let c = { rest = ts } in let o = scn_of c in
+  if not (valid_scn o) then raise (Bad "scenario outside the property's domain (valid = false)") else
+  let r = run_scn o in String.concat " " (pval r.o_val @ [pbool r.o_ref; pbool r.o_paired])
+let spec_line ts os = let c = { rest = ts } in let o = scn_of c in
   let n = List.length os in
   if n < 3 then false else
   let v = List.filteri (fun i _ -> i < n - 2) os in
-  spec o { o_val = val_of v; o_ref = bool_tok (List.nth os (n - 2)); o_paired = bool_tok (List.nth os (n - 1)) }
+  spec_scn o { o_val = val_of v; o_ref = bool_tok (List.nth os (n - 2)); o_paired = bool_tok (List.nth os (n - 1)) }
